@@ -69,6 +69,7 @@ LastBlock == 3 * PhaseLen + 1   \* the block that can carry the DKGResult votes
 (*   k "apol"  : vals[a] \in {"ok","bad"} for each accuser a               *)
 (*   k "result": vals[s] \in {"ok","fail"}                                 *)
 (*   k "checkin": vals[s] = "key" (the keyper's own encryption key)        *)
+(*   k "old"   : a message of the previous, failed eon (its DKGResult vote) *)
 Msg(k, s, vals) == [k |-> k, s |-> s, vals |-> vals]
 Named(m) == {i \in K : m.vals[i] # Blank}
 
@@ -103,6 +104,10 @@ Deliver(app, m) ==
       [] m.k = "result" ->
            IF app.vote[m.s] # "none" THEN [app |-> app, code |-> CodeSeen]
            ELSE [app |-> [app EXCEPT !.vote[m.s] = m.vals[m.s]], code |-> CodeOk]
+      [] m.k = "old" ->
+           (* the failure vote for the previous eon: the votes of keypers 1..T are already in (they
+              restarted the eon), so theirs is a repeat; the others' are accepted and dismissed *)
+           [app |-> app, code |-> IF m.s <= T THEN CodeSeen ELSE CodeOk]
       [] m.k = "checkin" ->
            (* deliverCheckIn, check-in update fork disabled: every keyper checked in before the eon *)
            [app |-> app, code |-> CodeSeen]
@@ -228,15 +233,20 @@ HandleEvents(p, i, evs) == IF evs = <<>> THEN p ELSE HandleEvents(HandleEvent(p,
 (* smdriver.handleBlock: the phase is shifted BEFORE the events of the block are applied.
    ShiftMode "after" is the mutant that shifts afterwards (kept as a named alternative for
    experiments; the repository does "before"). *)
-ProcessBlock(p, i, h, evs) ==
+ProcessBlockOv(p, i, h, evs, ov) ==
     IF p.phase < Off \/ p.done THEN p   \* Byzantine slot / no active DKG: events for a non-existent eon are ignored
-    ELSE HandleEvents(ShiftPhase(p, i, h), i, evs)
+    ELSE LET p1 == ShiftPhase(p, i, h)
+             (* overlapping eons: the previous eon of the keyper set is still in its apologising phase
+                when this one starts and is finalised (as failed) by shiftPhases of block 1 *)
+             p2 == IF ov /\ h = 1 THEN Push(p1, Msg("old", i, BlankVals)) ELSE p1
+         IN HandleEvents(p2, i, evs)
+ProcessBlock(p, i, h, evs) == ProcessBlockOv(p, i, h, evs, FALSE)
 
 (* one SyncAppWithDB call (fetchEvents2): every closed block above the keyper's sync position *)
-RECURSIVE ProcessBlocks(_, _, _, _)
-ProcessBlocks(p, i, from, bs) ==
+RECURSIVE ProcessBlocks(_, _, _, _, _)
+ProcessBlocks(p, i, from, bs, ov) ==
     IF bs = <<>> THEN p
-    ELSE ProcessBlocks(IF Head(bs).h > from THEN ProcessBlock(p, i, Head(bs).h, Head(bs).evs) ELSE p, i, from, Tail(bs))
+    ELSE ProcessBlocks(IF Head(bs).h > from THEN ProcessBlockOv(p, i, Head(bs).h, Head(bs).evs, ov) ELSE p, i, from, Tail(bs), ov)
 
 ----------------------------------------------------------------------------
 (* the world: chain + honest keypers; ops *)
@@ -246,6 +256,7 @@ InitState ==
      stage |-> 0,
      rej   |-> 0,
      rl    |-> [i \in K |-> 0],    \* ghost: block in which keyper i re-created its in-memory state (0 = never)
+     ov    |-> FALSE,               \* world variant: the previous eon overlaps with this one (see ProcessBlockOv)
      lags  |-> 0,                   \* number of "lag" ops so far
      skip  |-> [i \in K |-> FALSE], \* keyper i does not call SyncAppWithDB after the open block
      sync  |-> [i \in K |-> IF i \in Honest THEN 0 ELSE -1],   \* last block keyper i has applied
@@ -312,7 +323,8 @@ Reloads(s) == Cardinality({i \in K : s.rl[i] # 0})
 OpEnabledLag(s, o, maxRej, windows, maxReload, maxLag) ==
     /\ ~Final(s)
     /\ o.op = "lag" => (o.s \in Honest /\ ~s.skip[o.s] /\ s.lags < maxLag /\ s.h < 3 * PhaseLen)
-    /\ o.op = "reload" => (o.s \in Honest /\ ~s.kp[o.s].done /\ s.rl[o.s] = 0 /\ Reloads(s) < maxReload)
+    /\ o.op = "reload" => (o.s \in Honest /\ ~s.kp[o.s].done /\ s.rl[o.s] = 0 /\ Reloads(s) < maxReload
+                            /\ (windows => s.h <= 2 * PhaseLen))   \* exhaustive plans: dealing and accusing phases
     /\ IF o.op = "post" THEN o.s \in Honest /\ s.kp[o.s].outbox # <<>> /\ Rank(o) >= s.stage
        ELSE Rank(o) > s.stage
     /\ o.op \in {"bcommit", "beval", "bacc", "bapol"} => o.s \in Byz
@@ -335,7 +347,7 @@ ApplyOp(s, o) ==
             low == CHOOSE x \in {sync1[i] : i \in Honest} \cup {s.h} : \A y \in {sync1[i] : i \in Honest} \cup {s.h} : x <= y
         IN
         [st  |-> [s EXCEPT !.h = @ + 1, !.stage = 0, !.blk = <<>>,
-                           !.kp = [i \in K |-> IF does(i) THEN ProcessBlocks(s.kp[i], i, s.sync[i], all) ELSE s.kp[i]],
+                           !.kp = [i \in K |-> IF does(i) THEN ProcessBlocks(s.kp[i], i, s.sync[i], all, s.ov) ELSE s.kp[i]],
                            !.sync = sync1, !.skip = [i \in K |-> FALSE],
                            !.backlog = SelectSeq(all, LAMBDA b : b.h > low)],
          out |-> [code |-> CodeNone, msg |-> NoMsg, ev |-> NoMsg]]
